@@ -30,35 +30,25 @@ class Range(object):
                 self.segment_offset == other.segment_offset)
 
 def first_block(data_locators, range_start):
-    block_start = 0
-
     # range_start/block_start is the inclusive lower bound
     # range_end/block_end is the exclusive upper bound
 
-    hi = len(data_locators)
+    # binary search for the first block that ends after range_start;
+    # assumes that all of the blocks are contiguous.  Zero-length blocks
+    # (end == start) are never chosen, so they cannot derail the search.
     lo = 0
-    i = (hi + lo) // 2
-    block_size = data_locators[i].range_size
-    block_start = data_locators[i].range_start
-    block_end = block_start + block_size
-
-    # perform a binary search for the first block
-    # assumes that all of the blocks are contiguous, so range_start is guaranteed
-    # to either fall into the range of a block or be outside the block range entirely
-    while not (range_start >= block_start and range_start < block_end):
-        if lo == i:
-            # must be out of range, fail
-            return None
-        if range_start > block_start:
-            lo = i
-        else:
+    hi = len(data_locators)
+    while lo < hi:
+        i = (lo + hi) // 2
+        if data_locators[i].range_start + data_locators[i].range_size > range_start:
             hi = i
-        i = (hi + lo) // 2
-        block_size = data_locators[i].range_size
-        block_start = data_locators[i].range_start
-        block_end = block_start + block_size
+        else:
+            lo = i + 1
 
-    return i
+    if lo == len(data_locators) or data_locators[lo].range_start > range_start:
+        # must be out of range, fail
+        return None
+    return lo
 
 class LocatorAndRange(object):
     __slots__ = ("locator", "block_size", "segment_offset", "segment_size")
